@@ -348,8 +348,19 @@ func (w *world) afterStake(in *intent, ok bool, vmErr, log string, pre, post *sn
 			got = new(big.Int)
 		}
 		diff := new(big.Int).Abs(new(big.Int).Sub(got, delta))
-		// after a slash shares and tokens are no longer 1:1 and the staking module truncates: one unit of rounding
-		if diff.Sign() != 0 && !(w.slashed && diff.Cmp(big.NewInt(1)) <= 0) {
+		// after a slash shares and tokens are no longer 1:1 and the staking module truncates: one unit of rounding;
+		// a redelegation rounds twice (shares -> tokens at the source, tokens -> shares at the destination), and
+		// with both validators slashed the second conversion scales the first one's lost unit: two units
+		tol := big.NewInt(1)
+		if si.action == "redelegate" {
+			tol = big.NewInt(2)
+			if r, ok := pre.rate[si.val2]; ok && r.tokens.IsPositive() {
+				// one token lost at the source is worth shares/tokens shares at the destination
+				tol.Add(tol, r.shares.QuoInt(r.tokens).TruncateInt().BigInt())
+				tol.Sub(tol, big.NewInt(1))
+			}
+		}
+		if diff.Sign() != 0 && !(w.slashed && diff.Cmp(tol) <= 0) {
 			w.rec.Violate("C17", "wrong_effect", si.path+":"+si.action, "%s: %s changed by %s, expected %s (once per emitted event, exactly the passed amount)", in.desc, key, got, delta)
 		}
 	}
